@@ -106,6 +106,7 @@ pub fn import_called(index: usize, flat: &[CoreVal]) -> Option<CoreVal> {
         };
         p.calls += 1;
         p.flat_in = flat.len();
+        mem.begin_call();
         let sig = abi.signature(&p.params, p.result.as_ref(), SigKind::SyncLower);
         let nparams = if sig.retptr { flat.len().saturating_sub(1) } else { flat.len() };
         // lift the arguments the guest lowered
@@ -195,7 +196,9 @@ impl<'a> Host<'a> {
         let c = json!({"call": self.call_no, "dir": f.dir.name(), "func": f.symbol(), "phase": phase, "shape": shape, "world": self.world_tag});
         let s = c.to_string();
         obs::set_context(&s);
-        eprintln!("CTX {s}");
+        if phase != "prepare" && phase != "after" {
+            eprintln!("CTX {s}");
+        }
     }
 
     fn replay(&self, f: &Func, extra: Value) -> Value {
@@ -367,6 +370,7 @@ impl<'a> Host<'a> {
         // lower
         let flat: Result<Vec<CoreVal>, String> = with_shared(|sh| {
             let mem = &mut sh.mem;
+            mem.begin_call();
             if sig.indirect_params {
                 let (size, align) = self.abi.record_layout(&f.params);
                 let base = mem.alloc(size, align)?;
@@ -657,7 +661,7 @@ pub fn run(tables: &'static Tables) {
     host.rep.count_n("guest_heap_allocations", allocs as u64);
     host.rep.count_n("guest_heap_frees", frees as u64);
     host.rep.extra.insert("guest_heap_peak_bytes".into(), json!(peak));
-    let (handed, written) = with_shared(|sh| (sh.mem.handed.len(), sh.mem.bytes_written));
+    let (handed, written) = with_shared(|sh| (sh.mem.handed, sh.mem.bytes_written));
     host.rep.count_n("host_blocks_handed_to_guest", handed as u64);
     host.rep.count_n("host_bytes_written", written);
     host.rep.extra.insert("pointer_width".into(), json!(PTR * 8));
